@@ -66,6 +66,9 @@ def _case(draw):
             name = draw(st.sampled_from([".cap", ".cap", ".names", ".Links", ".abstract", "gophermap", ".cache.pygopherd.dir"]))
         if kind == "linktofile" and name != ".cap":
             kind = "dangling"
+        if kind in ("enoent", "eacces") and any(name.endswith(e) and name[:-len(e)] in used for e in (".abstract", ".keywords", ".ask", ".3d")):
+            # it would be the (readable) sidecar of a good entry: whether its text shows is not this property's business
+            name = "q" + name
         if name in used:
             name = "q" + name
         if name in used:
